@@ -32,7 +32,8 @@ LEVEL_TEXT = ("Lean 4 theorems over an executable model of the formatted-text la
               "character), ANSI(ansi_escape(v)) and HTML(html_escape(v)) show the text of v for every string v with "
               "the exact set of replaced code points, and both escape functions are proved equal to the source's own "
               "chain of .replace calls (tables regenerated from /repo); interpolation inertness for ANSI / HTML .format(*args, **kwargs) "
-              "and % with automatic, numbered and keyword fields, !r !s !a conversions and format specs (any number "
+              "and % (tuples of mixed values under every conversion: either the call raises or every value is inert) "
+              "with automatic, numbered and keyword fields, !r !s !a conversions and format specs (any number "
               "of holes at ground state / in text position: each escaped value is spliced in with the surrounding "
               "style, parser state unchanged; only the referenced values matter; format pads the value, % pads the "
               "escaped text); sessions: in any sequence of constructions and format / % / to_formatted_text calls in "
@@ -95,7 +96,8 @@ TRUSTED = ["harness/c18.py compares fragment lists (style, text, handler id) / s
            "ARE the source's replace chains) and the pins (moduleState_pinned, htmlTbl_pinned, ansiTbl_pinned, "
            "xmlIllegalPattern_pinned, ansiParamExpr_pinned) are re-decided by the kernel on every run"]
 ASSUMPTIONS = ["CPython str.format / Formatter.vformat / % semantics on the modelled sub-grammar "
-               "(literal, {{, }}, {[n|name][!r|!s|!a][:[[fill]align][width][.prec][s]]}; %%, %[-][width][.prec]s); "
+               "(literal, {{, }}, {[n|name][!r|!s|!a][:[[fill]align][width][.prec][s]]}; %%, %[flags][width][.prec][hlL] with s r a c; d i u o x X e E f F g G, * and (key) = TypeError, any "
+               "other character = ValueError, as str.__mod__ does on the tuple of ESCAPED strings the code passes); "
                "repr(str) / ascii as in unicode_repr with str.isprintable as a generated table",
                "non-str values enter through str(v) / repr(v) as computed by CPython (passed to the model as data); "
                "format(v, spec) of numbers with a non-empty spec is not modelled (never generated)",
@@ -119,6 +121,9 @@ PARTIAL_SCOPE = ["HTML: minidom/expat is modelled on a sub-grammar only: names w
                  "value-preserving: clampParam_eq); HTML.__mod__ applies %-width/precision to the escaped text "
                  "(format_pads_value_percent_pads_escaped); a value ending in ] followed by a literal > forms ]]>; "
                  "a literal CR directly before a hole merges with a leading LF of the value",
+                 "HTML %: the inertness theorem (htmlMod_inert) covers plain %s / %c; with a width / precision or "
+                 "%r / %a the escaped text is padded / cut / repr'd (known finding; modelled and compared, ANSI side "
+                 "proved inert for all of them)",
                  "format(): nested fields ({:{}}), attribute / index lookups ({a.b}, {a[0]}), field numbers of more "
                  "than 9 digits, non-identifier keyword names, format specs of numbers are not modelled",
                  "sessions: only the state inventoried by gen_c18.py is pinned (module-level objects, cached "
@@ -253,6 +258,8 @@ def real_val(v):
         return int(x)
     if k == "bool":
         return bool(x)
+    if k == "float":
+        return float(x)
     if k == "none":
         return None
     if k == "list":
@@ -269,7 +276,7 @@ def enc_val(v):
     if isinstance(v, str):
         return "S " + enc_str(v)
     rv = real_val(v)
-    kind = "N" if isinstance(rv, int) else "P"
+    kind = "N" if isinstance(rv, (int, float)) else "P"
     return f"{kind} {enc_str(str(rv))} {enc_str(repr(rv))}"
 
 
@@ -312,8 +319,10 @@ def render_percent_template(items):
     for it in items:
         if it[0] == "lit":
             out.append(it[1].replace("%", "%%"))
+        elif it[0] == "raw":        # verbatim %-syntax: %(key)s, %*s, %z, a trailing %, %5% ...
+            out.append(it[1])
         else:
-            out.append("%" + (it[2] or "") + "s")
+            out.append("%" + (it[2] or "") + (it[3] if len(it) > 3 and it[3] else "s"))
     return "".join(out)
 
 
@@ -803,10 +812,62 @@ def at_ground(prefix):
     return p1[-1][0]    # the style current at the hole
 
 
-def py_format_value(v, spec, percent):
+def py_format_value(v, spec, percent, conv="s"):
     if percent:
-        return ("%" + (spec or "") + "s") % (v,)
+        return ("%" + (spec or "") + (conv or "s")) % (v,)
     return format(v, spec or "")
+
+
+NUM_CONVS = "diuoxXeEfFgG"
+
+
+def percent_oracle_view(kind, items, vals):
+    """For the oracles, a %-template is seen as a template of plain string holes: per hole the text
+    that has to appear (before escaping), the width/precision that applies to it and the conversion.
+    None = nothing is claimed beyond the correspondence (the call has to raise, or the conversion
+    shows a repr of the escaped text).  Also says whether raising TypeError / ValueError is what the
+    code as it is does for this template (a numeric conversion always sees a string)."""
+    may_raise = any(it[0] == "raw" for it in items)
+    holes = [it for it in items if it[0] == "hole"]
+    view, used = [], []
+    ok = not may_raise and vals is not None
+    n = 0
+    for it in items:
+        if it[0] != "hole":
+            view.append(it)
+            continue
+        conv = it[3] if len(it) > 3 and it[3] else "s"
+        v = real_val(vals[n]) if ok and n < len(vals) else None
+        n += 1
+        if conv in NUM_CONVS:
+            may_raise = True
+            if ok and isinstance(v, (int, float)):
+                try:
+                    used.append(("%" + (it[2] or "") + conv) % (v,))
+                    view.append(["hole", None, None, "s"])
+                    continue
+                except Exception:
+                    pass
+            ok = False
+        elif conv == "c":
+            may_raise = True
+            sv = str(v)
+            if ok and len(sv) == 1 and len(html_escape(sv) if kind == "html" else ansi_escape(sv)) == 1:
+                used.append(sv)
+                view.append(["hole", None, (it[2] or "").split(".")[0], "s"])
+            else:
+                ok = False
+        elif conv in "ra":
+            if ok and kind == "ansi":
+                used.append(str(v))
+                view.append(["hole", None, it[2], conv])
+            else:
+                ok = False
+        else:
+            if ok:
+                used.append(str(v))
+            view.append(["hole", None, it[2], "s"])
+    return (view if ok else None), (used if ok else None), may_raise
 
 
 def resolve_holes(items, percent, args, kw):
@@ -814,6 +875,8 @@ def resolve_holes(items, percent, args, kw):
     the call is an error by these rules (errors are not part of the property)"""
     holes = [it for it in items if it[0] == "hole"]
     if percent:
+        if any(it[0] == "raw" for it in items):
+            return None
         return list(args) if len(holes) == len(args) else None
     idxs = [h[1] for h in holes]
     if any(i is None for i in idxs) and any(isinstance(i, int) for i in idxs):
@@ -876,15 +939,22 @@ def make_call(op, captured=None, tmpl=None):
         def run():
             return fmt_object(op)
     site = ("ANSI" if kind == "ansi" else "HTML") + (".__mod__" if percent else ".format")
+    template = (render_percent_template if percent else render_format_template)(items)
     holes = [it for it in items if it[0] == "hole"]
     vals = resolve_holes(items, percent, args, kw)
     used = None
-    if vals is not None:
+    may_raise = False
+    if percent:
+        view, used, may_raise = percent_oracle_view(kind, items, vals)
+        if view is not None:
+            items = view
+            holes = [it for it in items if it[0] == "hole"]
+    elif vals is not None:
         used = [hole_text(v, h, percent) for v, h in zip(vals, holes)]
         if any(u is None for u in used):
             used = None
     return {"kind": kind, "items": items, "percent": percent, "site": site, "holes": holes, "used": used,
-            "run": run, "op": op, "template": (render_percent_template if percent else render_format_template)(items)}
+            "run": run, "op": op, "template": template, "may_raise": may_raise}
 
 
 def oracle_ansi_call(call, viol):
@@ -894,6 +964,8 @@ def oracle_ansi_call(call, viol):
     try:
         got = [(f[0], f[1]) for f in to_formatted_text(call["run"]())]
     except Exception as e:
+        if call.get("may_raise") and isinstance(e, (TypeError, ValueError)):
+            return      # a numeric / %c conversion on the escaped string: the call may raise
         viol.append({"signature": f"{site} | raises", "msg": f"{type(e).__name__}: {e} op={op!r}"})
         return
     # the template's own output, and the splice points
@@ -914,7 +986,7 @@ def oracle_ansi_call(call, viol):
             v = used[n]
             n += 1
             if percent:
-                e = py_format_value(expected_escape(v), it[2], True)
+                e = py_format_value(expected_escape(v), it[2], True, it[3] if len(it) > 3 else "s")
             else:
                 e = expected_escape(py_format_value(v, it[2], False))
             expected += [(style, c) for c in e]
@@ -1208,6 +1280,8 @@ def oracle_html_call(call, viol):
         got = html_cells(call["run"]())
     except Exception as e:
         name = type(e).__name__
+        if call.get("may_raise") and name in ("TypeError", "ValueError") and "attribute contains a space" not in str(e):
+            return      # a numeric / %c conversion on the escaped string: the call may raise
         if name != ideal_exc or text_holes:
             # the known corners are all rejections by the XML parser; any other exception is its own class
             sig = classify(f"{site} | raises", True) if name == "ExpatError" else f"{site} | raises {name}"
@@ -1477,6 +1551,80 @@ def format_call_values(rng, items, value, nonstr=0.12):
 
 
 HOLE_MODES = ["auto", "auto", "auto", "explicit", "kw", "kw", "auto+kw", "explicit+kw"]
+
+# ---- % with mixed tuples: numbers under numeric conversions next to hostile strings
+PCT_NUMBERS = [{"int": 3}, {"int": -1}, {"float": 1.5}, {"bool": True}, {"int": 65}]
+PCT_HOSTILE = ["<i>x</i>", "&", "</b>", "<", "a", "'", ESC + "[1m", CSI8 + "4m", SOH + "z" + STX, "%d", "ab",
+               {"obj": ["<o>", "R"]}, {"none": 1}]
+PCT_CONVS = ["s", "s", "r", "a", "c", "d", "i", "f", "x", "e", "g", "u", "o", "X"]
+PCT_RAW = ["%(a)s", "%*s", "%.*s", "%z", "%", "%5", "%5.", "%5%", "%-%", "%ls", "%lls", "%1$s", "%(a"]
+PCT_MIXED_TEMPLATES = [
+    # (literal before, [(spec, conv), ...] with literals between)
+    [["lit", "<b>"], ["hole", None, None, "d"], ["lit", "</b> items: "], ["hole", None, None, "s"]],
+    [["hole", None, None, "s"], ["lit", "<i>"], ["hole", None, "5.1", "f"], ["lit", "</i>"]],
+    [["lit", "<u>"], ["hole", None, "-4", "x"], ["lit", "|"], ["hole", None, "3", "c"], ["lit", "|"],
+     ["hole", None, None, "r"], ["lit", "</u>"]],
+    [["hole", None, None, "c"], ["hole", None, ".3", "a"], ["hole", None, "05", "i"]],
+    [["lit", "a%"], ["hole", None, "+", "e"], ["lit", "b"], ["hole", None, None, "s"], ["lit", "c"]],
+]
+
+
+def mixed_percent_cases(quick, rng):
+    """`HTML % tuple` / `ANSI % tuple` with mixed components under every conversion"""
+    ops = []
+
+    def ansi_items(items):
+        # the same holes between ANSI literals
+        out = []
+        for it in items:
+            if it[0] == "lit":
+                out.append(["lit", it[1].replace("<b>", ESC + "[1m").replace("</b>", ESC + "[0m")
+                            .replace("<i>", ESC + "[3m").replace("</i>", ESC + "[23m")
+                            .replace("<u>", CSI8 + "4m").replace("</u>", ESC + "[24m")])
+            else:
+                out.append(list(it))
+        return out
+
+    for t in PCT_MIXED_TEMPLATES:
+        nh = sum(1 for it in t if it[0] == "hole")
+        for num in PCT_NUMBERS:
+            for hv in PCT_HOSTILE:
+                # the number in every position, hostile strings elsewhere; and the reverse
+                for pos in range(nh):
+                    vals = [hv] * nh
+                    vals[pos] = num
+                    ops.append(["hmod", t, vals])
+                    ops.append(["amod", ansi_items(t), vals])
+                ops.append(["hmod", t, [num] * nh])
+            ops.append(["hmod", t, [num] * (nh - 1)])
+            ops.append(["amod", ansi_items(t), [num] * (nh + 1)])
+    # every conversion alone, with width / precision, on a number and on strings
+    for conv in sorted(set(PCT_CONVS)) + ["E", "F", "G"]:
+        for spec in [None, "5", "-5", ".1", "6.2", "05", "+", " ", "#", "l", "h", "L"]:
+            for v in [{"int": 3}, {"float": 2.5}, "a", "<", "ab", "", ESC, "é", {"obj": ["&", "R"]}]:
+                items = [["lit", "<b>"], ["hole", None, spec, conv], ["lit", "</b>"]]
+                ops.append(["hmod1", items, v] if not isinstance(v, dict) or "obj" in v else ["hmod", items, [v]])
+                ops.append(["amod", [["lit", ESC + "[1m"], ["hole", None, spec, conv], ["lit", "x"]], [v]])
+    for raw in PCT_RAW:
+        for vals in ([], ["a"], ["<", {"int": 1}]):
+            ops.append(["hmod", [["lit", "<b>"], ["hole", None, None, "s"], ["raw", raw], ["lit", "</b>"]], ["p"] + vals])
+            ops.append(["hmod", [["raw", raw], ["lit", "x"]], vals])
+            ops.append(["amod", [["lit", "x"], ["raw", raw]], vals])
+    for _ in range(150 if quick else 6000):
+        for kind in ("hmod", "amod"):
+            items, nh = (rand_html_template if kind == "hmod" else rand_template)(rng, PERCENT_SPECS)
+            for it in items:
+                if it[0] == "hole":
+                    while len(it) < 4:
+                        it.append(None)
+                    if rng.random() < 0.6:
+                        it[3] = rng.choice(PCT_CONVS)
+            if rng.random() < 0.08:
+                items.insert(rng.randrange(len(items) + 1), ["raw", rng.choice(PCT_RAW)])
+            vals = [rng.choice(PCT_NUMBERS) if rng.random() < 0.35 else rng.choice(PCT_HOSTILE + [rand_value(rng, 4)])
+                    for _ in range(max(0, nh + rng.choice([0, 0, 0, 0, 1, -1])))]
+            ops.append([kind, items, vals])
+    yield from chunked(ops, 150)
 
 # ---- sessions: several calls in one process on the same template text
 SESS_VALUES = ["", "a", "b", "<", "&", "'", ESC, "{", "ab"]
@@ -2053,6 +2201,9 @@ def gen_cases(tier, rng):
         ops.append(["templ", text, [rand_any(rng) for _ in range(nv)]])
         ops.append(["merge", [rand_any(rng) for _ in range(nparts)]])
     yield from chunked(ops, 150)
+
+    # ---- 4a. % with mixed tuples under every conversion
+    yield from mixed_percent_cases(quick, rng)
 
     # ---- 4b. _ExplodedList mutators, to_formatted_text(auto_convert), PygmentsTokens
     yield from frag_extra_cases(quick, rng)
